@@ -14,6 +14,9 @@ func checkC02(c *Ctx) {
 	c.rule = "MC: over every byte string up to MaxLen over a grammar alphabet and every type, the reference grammar is self-delimiting (extent independent of trailing bytes; every strict prefix short). TRACE: one case = (typed value tree of a given type + trailing bytes); all 11x11 map and 11 list/set element combinations x counts 0,1,2,7; nesting 1..63 of every container kind; seeded random trees (depth<=5, strings up to 72KB); each is fed to the five skippers under bytes-backed, fitting, 1-byte, zero-byte and data+EOF source shapes; TLC computes the reference extent and judges success, length, returned bytes and source position."
 	mcSkip(c, "MC_ThriftSkip_small.cfg")
 	c.TraceCheck(famSkipC02, wellFormedSkipCases(c, c.Pick(4000, 60000), 2))
+	// sessions: one decoder / reader instance skips 2..6 consecutive values (state carried between calls,
+	// Reset / reuse after a failed call, Release of the underlying reader between values)
+	c.TraceCheck(famSkipSeq, skipSeqCases(c, c.Pick(1500, 30000)))
 	c.Assume("well-formedness is decided by the reference (ThriftSkip.tla), not by the generator; inputs the reference rejects are judged by C08 only")
 }
 
